@@ -498,6 +498,9 @@ def r6_table_isolation(ck, cx, rule='R6'):
                   detail='persistent-default %s' % txt[:50], loc=cx.floc(f, ev.node),
                   message='ModbusSlaveContext: store[%s] defaults to `%s`, an object shared by every context that omits this table: '
                           'a write addressed to one unit changes the others' % (key, txt[:60]))
+    from .. import ownership as _own
+    n += _own.rule_no_sharing_idiom(ck, cx, rule, ('pymodbus.datastore.context.ModbusSlaveContext',),
+                                    'the tables that default share one block: a write to one table (or unit) changes the other')
     ck.floor(rule, n, 1, 'store entries traced')
     # the block constructors take a private copy of the initial values
     sq = cx.idx.cls('pymodbus.datastore.store.ModbusSequentialDataBlock')
@@ -573,4 +576,6 @@ def run(ck, tier):
     ck.guard(r7_reset_keeps_extent, ck, cx)
     ck.assume('Python slice, dict and set semantics are trusted')
     ck.assume('histories of operations are not decided; the rules fix the shape of every address computation')
+    from .. import ownership as _own
+    ck.guard(_own.rule_instance_owned, ck, cx, 'R8', _own.STORES, 'a write changes cells outside the addressed block', 4)
     return cx.idx
